@@ -14,8 +14,9 @@ The IUPAC code table `sDnaCode`, the complement alphabets, `_iupac`, `MAX_PAT_LE
 **generated** from the sources (`ObiVerif.Gen`).  State words are `BitVec 64` (`patword_t = uint64_t`).
 
 Restrictions (recorded in lib/cfg/C10.py): pattern length 1..63 (`0x1L << patlen` is undefined behaviour in C for
-patlen = 64: reported, not modelled); error budget ≤ 63 (the `r[]` array has `2*MAX_PAT_ERR+2` words);
-circular sequences only with at least `MAX_PAT_LEN` symbols (`EncodeSequence` copies `in[0..64)` whatever `seqlen` is).
+patlen = 64: reported by the harness oracle, result lines `unmodelled`; `Lemmas/ApatLen64.lean` refutes exactness at 64 for
+every value of the shift).  The error budget is ≤ 63 by the guard of `buildPattern` (`makeApatPattern`, end of this file);
+a circular sequence is extended by its first `min(seqlen, MAX_PAT_LEN)` symbols (`seqData`: `take` does that).
 
 ## Match-list API (for C11)
 `findAllIndex P seq circular begin length : List Hit` — the `[][3]int` of `ApatPattern.FindAllIndex`, in order;
